@@ -14,7 +14,12 @@ impl ResultsFormatter for HtmlFormatter {
     }
 
     fn format_element(&mut self, _: &str, record: &str, _is_last: bool) -> Option<String> {
-        Some(format!("<td>{}</td>", record))
+        let escaped = record
+            .replace('&', "&amp;")
+            .replace('<', "&lt;")
+            .replace('>', "&gt;")
+            .replace('"', "&quot;");
+        Some(format!("<td>{}</td>", escaped))
     }
 
     fn row_ended(&mut self) -> Option<String> {
